@@ -4,8 +4,12 @@ import VivModel.Props.C08
 
 The engine model (`Viv.Engine`) is a deterministic transition system whose only inputs are the world
 and the handlers; what is proved here is that every channel named in the property is closed in the
-model: the stepping API (`run`, `step…`, `take_steps`, `run_until`), the process-global context
-counter (name only), and the `set` / hash-seed iteration orders (`writeCols_perm`, `strats_canonical`).
+model: the stepping API (`run`, `step…`, `take_steps` in any grouping, `run_until`, `run_for`, mixed
+interactive drives, explicit step sizes equal to the clock's, loops of `take_steps(k)`), the process-global
+context counter (name only), other simulations of the same process – earlier, unfinished or interleaved step
+by step (`interleaving_irrelevant`) –, and the `set` / hash-seed iteration orders (`writeCols_perm`,
+`strats_canonical`). The executable instance `schedSys` that `Driver/C01.lean` runs satisfies the hypotheses
+(`schedSys_law`, `schedSys_const`).
 That arbitrary user components, pandas and the interpreter add no other entropy is NOT a theorem –
 it is explored by the cross-history differential (PARTIAL, see DESIGN.md C01). -/
 namespace Viv.Props.C01
@@ -146,6 +150,169 @@ theorem stale_restore_witness :
     varying.setStep (varying.getStep (0, 1)) (varying.step (varying.setStep 1 (0, 1))) = (1, 1) ∧
     varying.istep (some 1) (0, 1) = (1, 3) := by decide
 
+/-! ### every other way of driving: grouping, run_for, mixed drives, explicit step sizes -/
+
+/-- `take_steps(a)` then `take_steps(b)` is `take_steps(a + b)`: how the steps are grouped into calls is irrelevant -/
+theorem takeSteps_none_add {W : Type} (S : VSys W) (a b : Nat) (w : W) :
+    S.takeSteps none (a + b) w = S.takeSteps none b (S.takeSteps none a w) := by
+  induction a generalizing w with
+  | zero => simp [VSys.takeSteps]
+  | succ a ih => rw [Nat.succ_add]; simp only [VSys.takeSteps]; exact ih _
+
+theorem viter_add_steps {W : Type} (S : VSys W) (n m : Nat) (w : W) : S.iter (n + m) w = S.iter m (S.iter n w) := by
+  induction n generalizing w with
+  | zero => simp [VSys.iter]
+  | succ n ih => rw [Nat.succ_add]; simp only [VSys.iter]; exact ih _
+
+/-- `run_for(d)` is `SimulationContext.run()` of a simulation whose end is `d` after the current time – same number of
+steps, same world, for ANY step function -/
+theorem run_for_eq_run {W : Type} (S : VSys W) (d : Int) (fuel : Nat) (w : W) :
+    S.runFor d fuel w = S.run (S.time w + d) fuel w := by
+  simp only [VSys.runFor, run_until_eq_run]
+
+/-- every sequence of interactive driving operations with default step sizes – `step()`, `take_steps(n)`, `run_until(t)`,
+`run_for(d)` in any order – is SOME number of engine steps: an interactive session can only reach worlds that `step()`
+iterated reaches -/
+theorem exec_is_iter {W : Type} (S : VSys W) (fuel : Nat) (ops : List VSys.Drive) (w : W) :
+    ∃ n, S.exec fuel ops w = S.iter n w := by
+  induction ops generalizing w with
+  | nil => exact ⟨0, rfl⟩
+  | cons op r ih =>
+    cases op with
+    | step =>
+      obtain ⟨n, hn⟩ := ih (S.istep none w)
+      exact ⟨1 + n, by simp only [VSys.exec, hn, viter_add_steps]; rfl⟩
+    | take k =>
+      obtain ⟨n, hn⟩ := ih (S.takeSteps none k w)
+      refine ⟨k + n, ?_⟩
+      show S.exec fuel r (S.takeSteps none k w) = _
+      rw [hn, viter_add_steps, takeSteps_none_eq_iter]
+    | untilT t =>
+      obtain ⟨n, hn⟩ := ih (S.runUntil t fuel w).2
+      refine ⟨(S.run t fuel w).1 + n, ?_⟩
+      show S.exec fuel r (S.runUntil t fuel w).2 = _
+      rw [hn, viter_add_steps, run_until_eq_run, vrun_eq_iter]
+    | forD d =>
+      obtain ⟨n, hn⟩ := ih (S.runFor d fuel w).2
+      refine ⟨(S.run (S.time w + d) fuel w).1 + n, ?_⟩
+      show S.exec fuel r (S.runFor d fuel w).2 = _
+      rw [hn, viter_add_steps, run_for_eq_run, vrun_eq_iter]
+
+/-- after any `n` engine steps that `run()` would also have taken, finishing with `run()` gives the world of the
+uninterrupted `run()` -/
+theorem run_after_prefix {W : Type} (S : VSys W) (stop : Int) (n : Nat) :
+    ∀ (fuel : Nat) (w : W), n ≤ (S.run stop (fuel + n) w).1 →
+      (S.run stop fuel (S.iter n w)).2 = (S.run stop (fuel + n) w).2 := by
+  induction n with
+  | zero => intro fuel w _; rfl
+  | succ n ih =>
+    intro fuel w h
+    have e : fuel + (n + 1) = (fuel + n) + 1 := by omega
+    rw [e] at h ⊢
+    simp only [VSys.run] at h ⊢
+    by_cases hlt : S.time w < stop
+    · simp only [hlt, if_true] at h ⊢
+      simp only [VSys.iter]
+      exact ih fuel (S.step w) (by omega)
+    · simp only [hlt, if_false] at h
+      omega
+
+/-- a MIXED interactive drive – any default-size operations that stay within the run, finished by `run_until(stop)` (or
+`InteractiveContext.run()`, `run_for(stop - now)`) – ends in the world `SimulationContext.run()` ends in -/
+theorem mixed_drive_eq_run {W : Type} (S : VSys W) (stop : Int) (fuel : Nat) (ops : List VSys.Drive) (w : W) (n : Nat)
+    (hn : S.exec fuel ops w = S.iter n w) (hle : n ≤ (S.run stop (fuel + n) w).1) :
+    (S.exec fuel (ops ++ [.untilT stop]) w) = (S.run stop (fuel + n) w).2 := by
+  have happ : ∀ (ops : List VSys.Drive) (w : W), S.exec fuel (ops ++ [.untilT stop]) w = (S.runUntil stop fuel (S.exec fuel ops w)).2 := by
+    intro ops
+    induction ops with
+    | nil => intro w; rfl
+    | cons op r ih => intro w; cases op <;> simp only [List.cons_append, VSys.exec, ih]
+  rw [happ, hn, run_until_eq_run]
+  exact run_after_prefix S stop n fuel w hle
+
+/-- a user loop `while time < stop: take_steps(k)` is `k · (number of chunks)` engine steps – the same steps `run()` takes,
+possibly followed by up to `k − 1` more: every chunk starts before the end … -/
+theorem run_chunks_is_iter {W : Type} (S : VSys W) (k : Nat) (stop : Int) (fuel : Nat) (w : W) :
+    (S.runChunks k stop fuel w).2 = S.iter (k * (S.runChunks k stop fuel w).1) w := by
+  induction fuel generalizing w with
+  | zero => simp [VSys.runChunks, VSys.iter]
+  | succ n ih =>
+    simp only [VSys.runChunks]
+    split
+    · simp only [ih, Nat.mul_add, Nat.mul_one, takeSteps_none_eq_iter]
+      rw [Nat.add_comm, viter_add_steps]
+    · simp [VSys.iter]
+
+/-- … and (fuel permitting) the loop ends at or after the end time -/
+theorem run_chunks_reaches_end {W : Type} (S : VSys W) (k : Nat) (stop : Int) (fuel : Nat) (w : W)
+    (h : (S.runChunks k stop fuel w).1 < fuel) : stop ≤ S.time (S.runChunks k stop fuel w).2 := by
+  induction fuel generalizing w with
+  | zero => omega
+  | succ n ih =>
+    simp only [VSys.runChunks] at h ⊢
+    split
+    · rename_i hlt
+      simp only [hlt, if_true] at h
+      exact ih _ (by omega)
+    · rename_i hge; simp only at hge ⊢; omega
+
+/-- a clock whose step never changes: no engine step recomputes the global step, and it stays `h` -/
+def ConstStep {W : Type} (S : VSys W) (h : Int) (w : W) : Prop :=
+  ∀ n, S.getStep (S.iter n w) = h ∧ S.recomputed (S.iter (n + 1) w) = false
+
+theorem ConstStep.step {W : Type} {S : VSys W} {h : Int} {w : W} (c : ConstStep S h w) : ConstStep S h (S.step w) := by
+  intro n
+  have := c (n + 1)
+  simpa [VSys.iter] using this
+
+/-- `step(h)` / `take_steps(1, h)` with the explicit step size the clock has anyway is a default step (no per-simulant
+clocks): the override changes nothing and is undone. Needs only that `setStep`/`getStep` behave like a field. -/
+theorem explicit_equal_step_is_default {W : Type} (S : VSys W) (h : Int) (w : W)
+    (law : ∀ v, S.setStep (S.getStep v) v = v) (c : ConstStep S h w) :
+    S.istep (some h) w = S.step w := by
+  have h0 : S.getStep w = h := (c 0).1
+  have h1 : S.getStep (S.step w) = h := (c 1).1
+  have hr : S.recomputed (S.step w) = false := (c 0).2
+  have e : S.setStep h w = w := by rw [← h0]; exact law w
+  simp only [VSys.istep, e, hr, h0]
+  rw [← h1]; exact law _
+
+/-- … hence a whole run driven by `while time < stop: step(h)` is `run()` -/
+theorem run_explicit_eq_run {W : Type} (S : VSys W) (h stop : Int) (fuel : Nat) (w : W)
+    (law : ∀ v, S.setStep (S.getStep v) v = v) (c : ConstStep S h w) :
+    S.runExplicit h stop fuel w = (S.run stop fuel w).2 := by
+  induction fuel generalizing w with
+  | zero => rfl
+  | succ n ih =>
+    simp only [VSys.runExplicit, VSys.run]
+    split
+    · rw [explicit_equal_step_is_default S h w law c]; exact ih _ c.step
+    · rfl
+
+/-- the driver's executable instance obeys the field law -/
+theorem schedSys_law (v : SW) : schedSys.setStep (schedSys.getStep v) v = v := rfl
+
+/-- … and without a schedule (no per-simulant clocks) its step is constant, so every theorem above applies to what the
+driver executes for fixed-step programs -/
+theorem schedSys_const (w : SW) (hs : w.sched = []) : ConstStep schedSys w.step w := by
+  have key : ∀ n (v : SW), v.sched = [] → (schedSys.iter n v).step = v.step ∧ (schedSys.iter n v).sched = [] ∧
+      (schedSys.iter (n + 1) v).recomp = false := by
+    intro n
+    induction n with
+    | zero =>
+      intro v hv
+      refine ⟨rfl, hv, ?_⟩
+      simp [VSys.iter, schedSys, SW.engineStep, hv]
+    | succ n ih =>
+      intro v hv
+      have hv' : (schedSys.step v).sched = [] := by simp [schedSys, SW.engineStep, hv]
+      have hst : (schedSys.step v).step = v.step := by simp [schedSys, SW.engineStep, hv]
+      obtain ⟨a, b, c⟩ := ih (schedSys.step v) hv'
+      exact ⟨by simpa [VSys.iter, hst] using a, by simpa [VSys.iter] using b, by simpa [VSys.iter] using c⟩
+  intro n
+  obtain ⟨a, _, c⟩ := key n w hs
+  exact ⟨a, c⟩
+
 /-! ### the process-global context counter enters the name only -/
 
 theorem stepW_name {σ : Type} (h : Handler σ) (w : World σ) (x : String) :
@@ -174,6 +341,47 @@ theorem context_name_only {σ : Type} (h : Handler σ) (n : Nat) (w : World σ) 
   have hy := iter_name h n w y
   rw [hx, hy]
   cases iter h n w <;> rfl
+
+/-! ### several simulations in one process: earlier, unfinished and interleaved ones -/
+
+theorem stepAt_other {σ : Type} (h : Handler σ) (p : Proc σ) (i j : Nat) (hij : i ≠ j) :
+    (p.stepAt h i).sims[j]? = p.sims[j]? := by
+  simp [Proc.stepAt, hij]
+
+theorem stepAt_self {σ : Type} (h : Handler σ) (p : Proc σ) (j : Nat) :
+    (p.stepAt h j).sims[j]? = (p.sims[j]?).map (stepT h) := by
+  simp [Proc.stepAt]
+
+theorem iterT_succ_last {σ : Type} (h : Handler σ) (n : Nat) (w : World σ) : iterT h (n + 1) w = stepT h (iterT h n w) := by
+  induction n generalizing w with
+  | zero => rfl
+  | succ n ih => simp only [iterT] at ih ⊢; exact ih _
+
+/-- whatever the other simulations of the process do, and however their steps are interleaved with this one's, the
+`j`-th simulation ends where it would have ended alone: in its own world stepped as often as the schedule names it -/
+theorem interleaving_irrelevant {σ : Type} (h : Handler σ) (is : List Nat) (p : Proc σ) (j : Nat) :
+    (p.schedule h is).sims[j]? = (p.sims[j]?).map (iterT h (is.count j)) := by
+  induction is generalizing p with
+  | nil =>
+    simp only [Proc.schedule, List.foldl_nil, List.count_nil]
+    cases p.sims[j]? <;> rfl
+  | cons i r ih =>
+    simp only [Proc.schedule, List.foldl_cons] at ih ⊢
+    rw [ih (p.stepAt h i)]
+    by_cases hij : i = j
+    · subst hij
+      rw [stepAt_self, List.count_cons_self, Option.map_map]
+      rfl
+    · rw [stepAt_other h p i j hij, List.count_cons_of_ne hij]
+
+/-- creating another context changes nothing about the simulations that exist; the newcomer's name is the count -/
+theorem create_keeps {σ : Type} (p : Proc σ) (s : Sim) (u : σ) (j : Nat) (hj : j < p.sims.length) :
+    (p.create s u).sims[j]? = p.sims[j]? := by
+  simp [Proc.create, List.getElem?_append_left hj]
+
+theorem create_name {σ : Type} (p : Proc σ) (s : Sim) (u : σ) :
+    ((p.create s u).sims[p.sims.length]?).map (·.name) = some s!"simulation_{p.created + 1}" := by
+  simp [Proc.create]
 
 /-! ### set / hash-seed iteration order -/
 
@@ -285,5 +493,15 @@ example : Running (⟨{ st := "population_creation", setupDone := true, created 
   ⟨Or.inl rfl, rfl, rfl, rfl⟩
 example : writeCols [("a", 1), ("b", 2)] [("b", 5), ("c", 7)] = [("a", 1), ("b", 5), ("c", 7)] := by decide
 example : dedup [3, 1, 3, 2] = [1, 3, 2] := by decide
+-- a mixed drive on the varying clock: step(), then run_until(4), is run() (2 steps, world (4, 3))
+example : varying.exec 100 [.step, .untilT 4] (0, 1) = (varying.run 4 101 (0, 1)).2 := by decide
+-- pairs of steps on the varying clock overrun the end by one step: run() stops at 4 after 2 steps, the loop of pairs too (2 = 1 pair)
+example : (varying.runChunks 2 4 100 (0, 1)) = (1, (4, 3)) ∧ (varying.runChunks 2 5 100 (0, 1)) = (2, (10, 3)) := by decide
+-- the driver's instance: a fixed-step world satisfies ConstStep; the explicit loop and run() agree on it
+example : schedSys.runExplicit 2 5 10 { clock := 0, step := 2, stop := 5 } = (schedSys.run 5 10 { clock := 0, step := 2, stop := 5 }).2 := by decide
+-- two simulations of one process, interleaved 0,1,0: the second took one step
+example : (({ sims := [⟨⟨{ st := "population_creation", setupDone := true, created := true }, 0, 1, 3, []⟩, (0 : Nat), "a"⟩,
+                       ⟨⟨{ st := "population_creation", setupDone := true, created := true }, 5, 2, 9, []⟩, (0 : Nat), "b"⟩] } : Proc Nat).schedule
+            (fun _ _ _ u => u + 1) [0, 1, 0]).sims.map (fun w => (w.sim.clock, w.user)) = [(2, 8), (7, 4)] := by decide
 
 end Viv.Props.C01
